@@ -135,6 +135,25 @@ func VH_C18_BotWager() {
 		e2 = eng2.Player(gi).Raise(c.chips)
 	}
 	verifrt.Assert(e2 == nil, "the hand engine accepts the bot's move")
+	// ... and pokertable's own game wrapper, which validates a move before the hand engine
+	// sees it, lets it through (checked against an accept-everything backend)
+	wr := pokertable.VHWrapperOn(gs)
+	var e3 error
+	switch c.kind {
+	case "fold":
+		_, e3 = wr.Fold(gi)
+	case "check":
+		_, e3 = wr.Check(gi)
+	case "call":
+		_, e3 = wr.Call(gi)
+	case "allin":
+		_, e3 = wr.Allin(gi)
+	case "bet":
+		_, e3 = wr.Bet(gi, c.chips)
+	case "raise":
+		_, e3 = wr.Raise(gi, c.chips)
+	}
+	verifrt.Assert(e3 == nil, "pokertable's game wrapper passes the bot's move on to the hand engine")
 	verifrt.Reach("end")
 }
 
